@@ -56,6 +56,17 @@ FAMILIES = {
     "nested-derived-table": lambda n: "SELECT a FROM " + "(SELECT a FROM " * min(n // 8, 40) + "t" + ") q" * min(n // 8, 40),
     "nested-exists-not": lambda n: "SELECT a FROM t WHERE " + "NOT EXISTS (SELECT 1 FROM u WHERE " * min(n // 8, 30) + "1 = 1" + ")" * min(n // 8, 30),
     "nested-union-paren": lambda n: "SELECT a FROM " + "(SELECT 1 AS a UNION ALL SELECT a FROM " * min(n // 8, 30) + "t" + ") q" * min(n // 8, 30),
+    # every call-like element production nested in its own argument, plain and schema-qualified, accepted or not (a dispatcher that parses a call to look at
+    # what FOLLOWS it and then hands the same tokens to the production proper parses every level twice; seeded C19-10)
+    "nested-window": lambda n: "SELECT " + "SUM(" * min(n // 8, 40) + "a" + ") OVER (PARTITION BY b ORDER BY c)" * min(n // 8, 40) + " FROM t",
+    "nested-qualified-window": lambda n: "SELECT " + "udf.acc(" * min(n // 8, 40) + "a" + ") OVER (ORDER BY c)" * min(n // 8, 40) + " FROM t",
+    "nested-qualified-function": lambda n: "SELECT " + "s.f(1, s.g(" * min(n // 8, 40) + "a" + "))" * min(n // 8, 40) + " FROM t",
+    "nested-qualified-function-alias": lambda n: "SELECT " + "s.f(" * min(n // 8, 40) + "a" + ") x" * 1 + ")" * (min(n // 8, 40) - 1) + " FROM t",
+    "nested-cast": lambda n: "SELECT " + "CAST(" * min(n // 8, 40) + "a" + " AS CHAR(3))" * min(n // 8, 40) + " FROM t",
+    "nested-extract-if": lambda n: "SELECT " + "IF(a, EXTRACT(YEAR FROM " * min(n // 8, 40) + "b" + "), 1)" * min(n // 8, 40) + " FROM t",
+    "nested-case-value": lambda n: "SELECT " + "CASE (" * min(n // 8, 40) + "a" + ") WHEN 1 THEN 2 END" * min(n // 8, 40) + " FROM t",
+    "nested-in-list": lambda n: "SELECT a FROM t WHERE " + "a IN ((" * min(n // 8, 40) + "b" + "), 1)" * min(n // 8, 40),
+    "nested-between": lambda n: "SELECT a FROM t WHERE " + "(a BETWEEN (" * min(n // 8, 40) + "b" + ") AND 9)" * min(n // 8, 40),
     "nested-window-cast": lambda n: "SELECT " + "CAST((SUM(" * min(n // 8, 40) + "a" + ") OVER (ORDER BY b)) AS SIGNED INTEGER)" * min(n // 8, 40) + " FROM t",
     "nesting": lambda n: "SELECT " + "(" * min(n, 40) + "1" + ")" * min(n, 40) + " + " + " + ".join("1" for _ in range(n)),
 }
